@@ -17,6 +17,9 @@
 //! concrete failing history: the same setup and arguments gave two different values, so at least one of them
 //! violates the statement.
 //!
+//! In addition the base case is evaluated from inside a worker thread of rayon pools of 1, 3 and 97 threads and
+//! compared with the fresh process's main-thread value (the statements do not depend on the calling thread).
+//!
 //! usage: vh hist <seed> <n> <tier> <mode> [child <b>]      mode ∈ {c01 … c20}
 use crate::common::*;
 use crate::fam::compose::gen_prim;
@@ -553,6 +556,28 @@ fn observe(mode: &str, c: &Case, cache: &mut Spec) -> Obs {
         }
       }
     }
+    "c12" => {
+      // the integrators themselves, on fixed analytic integrands (setup-independent: only the execution context matters)
+      let k = 3.0 + c.a.theta_e_deg;
+      let f1 = move |x: f64| Complex::new((k * x).cos() * (1.0 + x), (k * x).sin() - 0.3 * x * x);
+      let f2 = move |x: f64, y: f64| Complex::new((k * x + y).cos() + x * y, (x - k * y).sin());
+      let rules = [
+        ("simpson7", Integrator::Simpson { divs: 7 }),
+        ("simpson21", Integrator::Simpson { divs: 21 }),
+        ("simpson50", Integrator::Simpson { divs: 50 }),
+        ("simpson132", Integrator::Simpson { divs: 132 }),
+        ("simpson257", Integrator::Simpson { divs: 257 }),
+        ("gl9", Integrator::GaussLegendre { degree: 9 }),
+        ("asr", Integrator::AdaptiveSimpson { tolerance: 1e-8, max_depth: 12 }),
+        ("cc", Integrator::ClenshawCurtis { tolerance: 1e-8 }),
+      ];
+      for (nm, r) in rules.iter() {
+        num(&mut o, &format!("integrate/{}", nm), guard(|| cxv(r.integrate(f1, -0.4, 1.3))));
+        if *nm != "cc" {
+          num(&mut o, &format!("integrate2d/{}", nm), guard(|| cxv(r.integrate2d(f2, -0.4, 1.3, 0.2, 0.9))));
+        }
+      }
+    }
     "c18" => {
       let t0 = cs.temperature.value_unsafe - 273.15;
       let steps = Steps2D((t0, t0 + 30.0, 3), (c.a.theta_e_deg, c.a.theta_e_deg + 1.0, 2));
@@ -689,10 +714,12 @@ fn child(seed: u64, mode: &str, b: usize) {
   };
   let tw = tweaks();
   let mut cache = Spec { sp: None, gen: usize::MAX, divs: 0, gl: false };
-  for (j, big) in tweak_list(mode) {
-    if let Some(c) = apply(&base, &tw[j], big, 2 * j + big as usize) {
-      let o = observe(mode, &c, &mut cache);
-      print_obs(&mut out, &key(j, big), &o);
+  if mode != "c12" {
+    for (j, big) in tweak_list(mode) {
+      if let Some(c) = apply(&base, &tw[j], big, 2 * j + big as usize) {
+        let o = observe(mode, &c, &mut cache);
+        print_obs(&mut out, &key(j, big), &o);
+      }
     }
   }
   let o = observe(mode, &base, &mut cache);
@@ -705,6 +732,7 @@ fn tol(mode: &str) -> f64 {
     "c05" => 1e-4,
     "c06" => 1e-7,
     "c13" => 1e-8,
+    "c12" => 1e-12,
     "c04" => 1e-7,
     _ => 1e-9,
   }
@@ -808,7 +836,13 @@ pub fn run(ctx: &mut Ctx) {
           },
         };
         let tweak_name = tag.split(':').next().unwrap_or(tag);
-        let sig = if pass { "history/ok".to_string() } else { format!("history/{}/{}", name.split('/').next().unwrap_or(name), tweak_name) };
+        let sig = if pass {
+          "history/ok".to_string()
+        } else if what.starts_with("base_in_worker") {
+          format!("context/{}/{}", name.split('/').next().unwrap_or(name), what)
+        } else {
+          format!("history/{}/{}", name.split('/').next().unwrap_or(name), tweak_name)
+        };
         let detail = if pass {
           String::new()
         } else {
@@ -822,6 +856,25 @@ pub fn run(ctx: &mut Ctx) {
     };
     let o0 = observe(&mode, &base, &mut cache);
     judge(ctx, "base", &o0, "base_first");
+    // execution context: the same call made from a worker thread of a rayon pool of 1, 3 or 97 threads
+    for k in [1usize, 3, 97] {
+      let (m2, b2) = (mode.clone(), base.clone());
+      let r = guard(move || {
+        rayon::ThreadPoolBuilder::new().num_threads(k).build().map(|p| {
+          p.install(move || {
+            let mut cache = Spec { sp: None, gen: usize::MAX, divs: 0, gl: false };
+            observe(&m2, &b2, &mut cache)
+          })
+        })
+      });
+      if let Some(Ok(o)) = r {
+        ctx.count("hist/context");
+        judge(ctx, "base", &o, &format!("base_in_worker_of_pool_{}", k));
+      }
+    }
+    if mode == "c12" {
+      continue;
+    }
     for (j, big) in tweak_list(&mode) {
       if let Some(c) = apply(&base, &tw[j], big, 2 * j + big as usize) {
         ctx.count(&format!("hist/tweak/{}", tw[j].0));
